@@ -31,6 +31,7 @@ import (
 
 	"github.com/cbeuw/Cloak/internal/common"
 	kit "github.com/cbeuw/Cloak/internal/verifkit"
+	"github.com/juju/ratelimit"
 	log "github.com/sirupsen/logrus"
 )
 
@@ -654,4 +655,88 @@ func c19ReplayFile(t *testing.T, path string) {
 	}
 	sort.Strings(keys)
 	fmt.Printf("REPLAY-RESULT keys=%q\n", keys)
+}
+
+// ------------------------------------------------------------------------------------ model <-> library
+
+// Behaviours of spec/TokenBucketGen.tla replayed on a real ratelimit.Bucket with a scripted clock: the library
+// must answer every Take with the wake-up instant (and leave the number of tokens) the model computed. A
+// difference means TokenBucket.tla does not describe juju/ratelimit: model drift, not a verdict about C19.
+
+type c19Step struct {
+	W     string `json:"w"`
+	N     int64  `json:"n"`
+	Now   int64  `json:"now"`
+	Wake  int64  `json:"wake"`
+	Avail int64  `json:"avail"`
+}
+
+type c19Beh struct {
+	Quantum int64     `json:"quantum"`
+	Fi      int64     `json:"fi"`
+	Cap     int64     `json:"cap"`
+	Steps   []c19Step `json:"steps"`
+}
+
+type c19Clock struct{ now time.Time }
+
+func (c *c19Clock) Now() time.Time        { return c.now }
+func (c *c19Clock) Sleep(d time.Duration) { c.now = c.now.Add(d) }
+
+func c19ReplayBucket(b *c19Beh, unit, jitter time.Duration) string {
+	start := time.Unix(1700000000, 0)
+	clk := &c19Clock{now: start}
+	tb := ratelimit.NewBucketWithQuantumAndClock(time.Duration(b.Fi)*unit, b.Cap, b.Quantum, clk)
+	for i, st := range b.Steps {
+		clk.now = start.Add(time.Duration(st.Now)*unit + jitter) // anywhere inside the model's clock unit
+		d := tb.Take(st.N)
+		wake := clk.now // no wait
+		if d > 0 {
+			wake = clk.now.Add(d)
+		}
+		want := start.Add(time.Duration(st.Wake) * unit)
+		if st.Wake == st.Now {
+			want = clk.now
+		}
+		if !wake.Equal(want) {
+			return fmt.Sprintf("step %d Take(%d) at %d: the library says proceed at +%v, the model at clock %d (+%v)", i, st.N, st.Now, wake.Sub(start), st.Wake, want.Sub(start))
+		}
+		if got := tb.Available(); got != st.Avail {
+			return fmt.Sprintf("step %d Take(%d) at %d: the library holds %d tokens, the model %d", i, st.N, st.Now, got, st.Avail)
+		}
+	}
+	return ""
+}
+
+func TestVerifC19Bucket(t *testing.T) {
+	res := kit.NewResult()
+	defer func() { res.Save(true) }()
+	idx := 0
+	err := kit.ReadLines(kit.Env("VERIF_IN", ""), func(line []byte) error {
+		var b c19Beh
+		if err := json.Unmarshal(line, &b); err != nil {
+			return err
+		}
+		idx++
+		waited := false
+		for _, st := range b.Steps {
+			waited = waited || st.Wake > st.Now
+		}
+		for ci, c := range []struct{ unit, jitter time.Duration }{{time.Millisecond, 0}, {10 * time.Microsecond, 9999 * time.Nanosecond},
+			{time.Nanosecond, 0}, {time.Second, 400 * time.Millisecond}} {
+			res.Count(string(line), waited)
+			if msg := c19ReplayBucket(&b, c.unit, c.jitter); msg != "" {
+				res.Stat("drift", 1)
+				res.Note("behaviour %d, concretisation %d: %s", idx, ci, msg)
+			}
+		}
+		if idx%97 == 1 {
+			res.Sample(map[string]any{"bucket_behaviour": json.RawMessage(append([]byte{}, line...))}, 2)
+		}
+		return nil
+	})
+	if err != nil {
+		t.Fatal(err)
+	}
+	res.Stat("behaviours", int64(idx))
 }
